@@ -594,6 +594,10 @@ func init() {
 	reg(&propDef{id: "C20", level: "exploration", crashIsViol: true,
 		batches: []batch{{name: "progress", quick: 4000, thorough: 150000}},
 		rule:    "each evaluation drives a real textProgressBar with two concurrent tasks under seeded schedules on the fake clock: a stepper (1-3 files; names of every width class: ASCII, CJK, emoji, combining marks, control characters, RTL, empty, 300 columns long; sizes 0, small, GiB range, 2^62, negative; step sequences with repeats, regressions, overshoot and 2^62; clock gaps 0, 1 ms, 199/200/201 ms, 3 s, 5 h) and a resizer/pauser (setTerminalColumns to 1-500, setPause on/off); initial widths 1-500, optional tmux pane width, optional tmux %output framing, optional colour pair; oracle on every write of the bar: display width (control sequences removed, tmux framing undone, runewidth's cluster-aware measure) <= largest width in force since the previous line, for widths >= 5; every percentage within 0..100 and non-decreasing within a file; a panic anywhere crashes the worker and is attributed to the run; non-trivial = at least one line measured; distinct = distinct (width class + modes, schedule-trace hash, tape hash)"})
+	reg(&propDef{id: "C04", level: "exploration", crashIsViol: true,
+		batches: []batch{{name: "builtin", params: map[string]string{"mode": "builtin"}, quick: 1500, thorough: 60000},
+			{name: "custom", params: map[string]string{"mode": "custom"}, quick: 1500, thorough: 60000}},
+		rule: "each evaluation is one simulated binary-mode transfer (-b, -b -e; protocols 1-4; buffer sizes 1K-1M; compression on/off/auto; bandwidth shaping so that chunk boundaries move; any segmentation incl. between leader and code) of content rich in protected bytes and leader bytes; batch builtin uses the real trz/tsz with their two tables, batch custom an in-package server running the real handshake/config/receive code with a tape-generated well-formed table (2-32 entries); in 20% of runs one escape pair on the wire is replaced by an undefined one; oracles: files identical after success (both directions), every byte the uploading client wrote between ACT and EXIT is outside the protected set announced in the CFG and every leader is followed by a defined code, an undefined pair ends the transfer with an error on both sides; non-trivial = binary mode negotiated and oracles evaluated; distinct = distinct (mode + configuration, schedule-trace hash, tape hash)"})
 	reg(&propDef{id: "C05", level: "exploration", crashIsViol: true,
 		batches: []batch{{name: "transparency", quick: 2000, thorough: 80000}},
 		rule:    "each evaluation is one real filter (option sets drag x tracelog x zmodem x OSC52) after a history of 0-3 real transfers (ended by success, user stop through the prompt, or SIGINT at the server), fed 3-14 probe chunks in both directions: random binary, VT100 sequences, truncated/corrupted trigger look-alikes, zmodem-like and OSC52-like fragments (including vetoed zmodem headers and genuine OSC52), scroll-back of finished transfers, control keys, path-like input naming files that do not exist, existing paths not in the dragged-path shape, bracketed paste; any segmentation and coalescing; oracle: bytes at the terminal == bytes the shell wrote and bytes at the server side == bytes typed, exactly, and no transfer starts; non-trivial = probe bytes compared; distinct = distinct (options + history + probe kinds, schedule-trace hash, tape hash)"})
